@@ -651,6 +651,33 @@ static void mode_b64junk(vf::Ctx& c)
 	if (c.want_sample()) c.sample("e.g. " + c.curdesc());
 }
 
+// mode b64_ptrn: the explicit-length entry point decodeBase64(const char*, int n) on VALID text whose n characters are
+// (even idx) an exact malloc(n) block without a terminator, (odd idx) the head of a longer NUL-terminated valid text.
+// One text per case (a sanitizer abort costs the case). Kept apart from the other modes: the String overload always
+// passes a terminated buffer of exactly n characters, which is what every other mode exercises.
+static void mode_b64_ptrn(vf::Ctx& c)
+{
+	Bytes x = random_bytes(c.rng, c.idx < 40 ? (int)c.idx / 2 : c.rng.range(0, 300));
+	std::string t = ref_b64enc(x);
+	if (c.rng.chance(0.3)) t = interleave(c.rng, t, (int)c.rng.below(3));
+	ByteArray d;
+	if (c.idx % 2 == 0) {
+		c.desc(vf::fmt("decodeBase64(p, %d) with p = malloc(%d) holding '%s' and no terminator", (int)t.size(), (int)t.size(), vf::vis(t, 300).c_str()));
+		Block b(t.data(), t.size(), false);
+		d = decodeBase64((const char*)b.p, (int)t.size());
+	} else {
+		std::string more = t + ref_b64enc(random_bytes(c.rng, c.rng.range(1, 60)));
+		c.desc(vf::fmt("decodeBase64(p, %d) with p -> '%s' (NUL-terminated, %d characters)", (int)t.size(), vf::vis(more, 300).c_str(), (int)more.size()));
+		Block b(more.data(), more.size(), true);
+		d = decodeBase64((const char*)b.p, (int)t.size());
+	}
+	if (d.length() < 0) c.fail("decodeBase64.ptrn.negative-length", vf::fmt("length() = %d", d.length()));
+	if (!same(d, x)) c.fail(c.idx % 2 ? "decodeBase64.ptrn.reads-past-n" : "decodeBase64.ptrn.roundtrip", vf::fmt("got %d bytes %s, want %d bytes %s", d.length(), vf::hex(str(d).substr(0, 40)).c_str(), (int)x.size(), vf::hex(x.substr(0, 40)).c_str()));
+	c.count(c.idx % 2 ? "ptrn_head_of_longer_text" : "ptrn_unterminated_exact_block");
+	if (x.size()) c.distinct(vf::fnv(t));
+	if (c.want_sample()) c.sample(c.curdesc().substr(0, 300));
+}
+
 // ------------------------------------------------------------------ hex strings
 static const char ALPHA5[] = {'0', '9', 'a', 'F', 'g'};
 static const char PREFIX_HEX[] = "00ff10a55a7e0180c3e1";   // 20 digits = 10 bytes
@@ -922,6 +949,7 @@ int main(int argc, char** argv)
 	R.add("b64x", mode_b64x, "blocks of the exhaustive enumeration over {A b + / = SP LF *} (pad-heavy shape excluded)");
 	R.add("b64_padonly", mode_b64_padonly, "the pad-heavy shape of the same enumeration: more trailing '=' than decoded bytes");
 	R.add("b64junk", mode_b64junk, "random malformed Base64 texts");
+	R.add("b64_ptrn", mode_b64_ptrn, "decodeBase64(const char*, n) with n delimiting the text (no terminator / longer buffer)");
 	R.add("hexx", mode_hexx, "even-length strings of length <= 5 over {0 9 a F g}");
 	R.add("hex", mode_hex, "random even-length hex-like strings");
 	R.add("hex_odd", mode_hex_odd, "odd-length strings, one per case");
